@@ -724,6 +724,7 @@ func (rb *replayBuilder) testSource(ct *Contract, ob *Obligation, argExprs []str
 	}
 	b.WriteString(")\n\n// Generated by govc: replay of a solver counterexample for obligation\n// " + ob.Name + "\nfunc TestVerifReplay(t *testing.T) {\n")
 	b.WriteString(body.String())
+	b.WriteString("\tfmt.Printf(\"VERIF-REPLAY ghost=%v\\n\", verif_ghostUsed)\n")
 	b.WriteString("}\n")
 	if rb.needSet {
 		b.WriteString("\nfunc verifSet(ptr interface{}, field string, val interface{}) {\n\tv := reflect.ValueOf(ptr).Elem().FieldByName(field)\n\treflect.NewAt(v.Type(), unsafe.Pointer(v.UnsafeAddr())).Elem().Set(reflect.ValueOf(val))\n}\n")
@@ -758,6 +759,7 @@ func runReplay(eng *Engine, o runOpts, ct *Contract, src string, work, tag strin
 	out := string(outB)
 	preOK := true
 	failed := false
+	ghost := false
 	for _, l := range strings.Split(out, "\n") {
 		l = strings.TrimSpace(l)
 		if !strings.HasPrefix(l, "VERIF-REPLAY ") {
@@ -771,7 +773,14 @@ func runReplay(eng *Engine, o runOpts, ct *Contract, src string, work, tag strin
 			failed = true
 		case strings.HasPrefix(kv, "panic="):
 			failed = true
+		case kv == "ghost=true":
+			// a clause evaluated an uninterpreted ghost function or an unbounded
+			// quantifier, which have no run-time observer: the run decides nothing
+			ghost = true
 		}
+	}
+	if ghost {
+		return false, "NOT REPLAYABLE: the contract uses uninterpreted ghost functions or unbounded quantifiers (verif_uf_*, verif_all), which have no run-time observer\n" + truncate2(out, 6000)
 	}
 	return preOK && failed, truncate2(out, 6000)
 }
